@@ -943,6 +943,8 @@ def log_call(
                 ctx.add_success_fields(result=result)
             return result
 
+    # boltons' wraps() copies __name__, __doc__ and __module__ but not this:
+    logging_wrapper.__qualname__ = wrapped_function.__qualname__
     return logging_wrapper
 
 
